@@ -58,6 +58,9 @@ func runC01(c *Ctx) {
 				w.DirCheck()
 			}
 			c.Count("evaluations", 1)
+			if len(w.M.Objs) > 0 || len(w.Dead) > 0 || len(w.M2) > 0 {
+				c.Distinct("distinct_nontrivial", w.Cfg.String()+jsonOf(w.Path))
+			}
 		}
 		e.Run()
 	}
@@ -82,6 +85,9 @@ func runC01(c *Ctx) {
 				w.SweepBasic()
 			}
 			c.Count("evaluations", 1)
+			if len(w.M.Objs) > 0 || len(w.Dead) > 0 || len(w.M2) > 0 {
+				c.Distinct("distinct_nontrivial", w.Cfg.String()+jsonOf(w.Path))
+			}
 		}
 		e.Run()
 	}
@@ -107,6 +113,9 @@ func runC01(c *Ctx) {
 				w.SweepBasic()
 			}
 			c.Count("evaluations", 1)
+			if len(w.M.Objs) > 0 || len(w.Dead) > 0 || len(w.M2) > 0 {
+				c.Distinct("distinct_nontrivial", w.Cfg.String()+jsonOf(w.Path))
+			}
 		}
 		e.Run()
 	}
